@@ -89,6 +89,8 @@ class Interp(CallMixin):
         self.noeffect_stmts: List[ast.stmt] = []  # expression statements without any effect that were executed
         self.attr_memo: Dict[Tuple[int, str], Any] = {}
         self.call_depth = 0
+        self.ext_bases: Dict[str, List[str]] = {}  # ancestry of external classes (supplied by rules)
+        self.ctxvars: List[Obj] = []  # contextvars.ContextVar objects created so far
 
     # ------------------------------------------------------------------ helpers for rules
     def enum(self, cls_qualname: str, name: str) -> EnumVal:
@@ -137,6 +139,8 @@ class Interp(CallMixin):
             res.append(n)
             if n in LARK_EXC:
                 work.extend(LARK_EXC[n])
+            elif n in self.ext_bases:
+                work.extend(self.ext_bases[n])
             elif n.startswith("builtins.") and hasattr(builtins, n[9:]) and isinstance(getattr(builtins, n[9:]), type):
                 for b in getattr(builtins, n[9:]).__mro__[1:]:
                     work.append(f"builtins.{b.__name__}")
@@ -341,6 +345,8 @@ class Interp(CallMixin):
         if dotted_name in ("builtins.str", "builtins.int", "builtins.bool", "builtins.list", "builtins.dict",
                            "builtins.tuple", "builtins.set", "builtins.float", "builtins.object", "builtins.type"):
             return ClassVal(dotted_name)
+        if head[:1].isupper() and not head.isupper() and not dotted_name.startswith("typing."):
+            return ClassVal(dotted_name)  # an external class (maus model classes, ContextVar, ...)
         return ExtVal(dotted_name)
 
     # ------------------------------------------------------------------ statements
@@ -617,6 +623,14 @@ class Interp(CallMixin):
                 return not self.truth(v, e.operand)
             if isinstance(e.op, ast.USub) and isinstance(v, (int, float)):
                 return -v
+            if isinstance(e.op, ast.Invert):
+                if isinstance(v, (EnumVal, Obj)):
+                    cls = self.model.classes.get(v.cls)
+                    m = self.model.find_method(cls, "__invert__") if cls is not None else None
+                    if m is not None:
+                        return self.call(FuncVal(fn=m, self_obj=v, module=m.module), [], {}, e, frame)
+                if isinstance(v, int):
+                    return ~v
             self.unsupported(e, frame)
         if isinstance(e, ast.BinOp):
             return self.binop(e.op, self.eval(e.left, frame), self.eval(e.right, frame), e, frame)
@@ -814,8 +828,8 @@ class Interp(CallMixin):
             m = self.model.find_method(cls, "__getitem__") if cls is not None else None
             if m is not None:
                 return self.call(FuncVal(fn=m, self_obj=cont, module=m.module), [idx], {}, e, frame)
-            if cont.cls == "re.Match":
-                return Opaque(f"match[{idx!r}]")
+            if cont.cls == "re.Match" and "m" in cont.fields:
+                return cont.fields["m"][idx]
         self.unsupported(e, frame, f"subscript on {cont!r}")
         return None
 
